@@ -736,7 +736,7 @@ func trustedBase(assumed []string) []string {
 
 func propAssumptions(prop string, assumed []string) []string {
 	a := []string{
-		"physical bounds: slice lengths/capacities <= 2^40, every size()/sum() spec term <= 2^50",
+		"physical bounds: slice lengths/capacities <= 2^40, every size()/sum() spec term <= 2^50; sum(xs, .) is monotone in its index (element sizes are non-negative), used by the elemsat element-placement clauses",
 		"distinct pointer/slice parameters of a verified function do not alias each other",
 		"append is modelled as producing a new backing array with the same contents (aliasing through spare capacity is not modelled)",
 		"allocation never fails",
